@@ -27,7 +27,7 @@ AXES = [None, "time", "leadtime", "year", "month", "week", "day", "timeofday", "
         "dayofmonth", "location", "elev", "lat", "lon", "threshold", "leadtimeday", "no", "obs", "fcst"]
 TYPES = ["plot", "text", "csv", "map", "rank", "maprank", "impact", "mapimpact"]
 VARIANTS = ["none", "r1", "r3", "q2", "r1q1", "b_within", "agg_median", "b_below_eq", "r1_within", "q1", "agg_min", "agg_range", "agg_iqr", "agg_q", "agg_count", "sub_tod", "sub_d", "sub_o", "r3_aggmax", "r3_aggq"]
-SHAPES = ["prob2", "single", "allmiss", "det1", "nc2c", "five", "noobs", "x0pit"]
+SHAPES = ["prob2", "single", "allmiss", "det1", "nc2c", "five", "noobs", "x0pit", "dry"]
 
 
 def metric_names():
@@ -68,6 +68,31 @@ def build_shape(shape, workdir, seed):
             for c in inp["cells"].values():
                 if c.get("obs") is not None and rng.random() < 0.3:
                     c["obs"] = 0.0
+        # a dry station: every observation of the first location is exactly 0 while the forecasts vary (no variance in that slice)
+        common_s = sorted(set(tuple(x) for x in i0["locs"]) & set(tuple(x) for x in i1["locs"])) or sorted(i0["locs"])
+        dry = gen.fnum(common_s[0][0])
+        for inp in ds["inputs"]:
+            for k, c in inp["cells"].items():
+                if k.split("|")[2] == dry and c.get("obs") is not None:
+                    c["obs"] = 0.0
+    elif shape == "dry":
+        # a full grid (at least 3 times, lead times and locations) where one station never observes anything but 0 and one
+        # lead time's forecasts are all the same value: slices with variance 0 on one side only
+        ds = None
+        for _ in range(50):
+            ds = gen.make_dataset(rng, n_inputs=2, fmt="text", prob=True, ens=True, pit=True, miss=0.0, sparse=0.0, same_dims=True,
+                                  thresholds=[0.0, 5.0, 10.0], quantiles=[0.1, 0.5, 0.9], vrange=(0, 12), max_t=4, max_l=4, max_s=4)
+            i0 = ds["inputs"][0]
+            if len(i0["times"]) >= 3 and len(i0["leadtimes"]) >= 3 and len(i0["locs"]) >= 3:
+                break
+        dry = gen.fnum(sorted(i0["locs"])[0][0])
+        flat = gen.fnum(sorted(i0["leadtimes"])[-1])
+        for inp in ds["inputs"]:
+            for k, c in inp["cells"].items():
+                if k.split("|")[2] == dry and c.get("obs") is not None:
+                    c["obs"] = 0.0
+                if k.split("|")[1] == flat and c.get("fcst") is not None:
+                    c["fcst"] = 3.0
     elif shape == "noobs":
         # observations have not arrived yet: every obs is missing, so no case is valid anywhere
         ds = gen.make_dataset(rng, n_inputs=2, fmt="text", prob=True, ens=True, pit=True, miss=0.05, sparse=0.0,
@@ -177,6 +202,9 @@ def all_combos(metrics, tier):
             for v in ("sub_tod", "sub_d", "sub_o"):
                 for ax in ("month", "week", "timeofday", "day", "year", "leadtimeday"):
                     combos.append((m, ax, "csv", v, "prob2"))
+            # slices without variance (a dry station, obs all 0) drawn along the dimensions
+            for ax in ("location", "leadtime", "elev"):
+                combos.append((m, ax, "plot", "none", "dry"))
             # slices without any valid case, under every kind of aggregator
             for v in ("agg_min", "agg_range", "agg_iqr", "agg_q", "agg_count", "agg_median"):
                 for ax in ("location", "leadtime"):
